@@ -231,7 +231,48 @@ fn sigv_case<S: ShortGroupSignatureScheme>(v: &Value, ps: bool) -> Value {
            "msgs": msgs.iter().map(hexs).collect::<Vec<_>>()})
 }
 
+/// d_bbs_gens: the BBS message generators of a key are treated by the theorems as elements with hidden, independent logs.
+/// In the code that rests on each being the hash-to-curve image of its own input (a per-key seed and the index);
+/// recompute them that way (msg_gens.rs repeated) and compare with the key's generators.
+fn bbs_gens_pin(v: &Value) -> Value {
+    use blsful::inner_types::{G1Projective, G2Projective, Scalar};
+    use elliptic_curve::hash2curve::{ExpandMsg, ExpandMsgXmd, Expander};
+    use sha2::Sha256;
+    let n = v["n"].as_u64().unwrap_or(4) as usize;
+    let sk = credx::knox::bbs::SecretKey::random(std::num::NonZeroUsize::new(n.max(1)).unwrap(), rand::thread_rng());
+    let pk = credx::knox::bbs::PublicKey::from(&sk);
+    let pkv = tj(&pk);
+    let ys: Vec<G1Projective> = fj(&pkv["y"]);
+    let w: G2Projective = fj(&pkv["w"]);
+    let api_id = w.to_compressed();
+    let cat = |tail: &[u8]| -> Vec<u8> { api_id.iter().chain(tail).copied().collect() };
+    let seed_dst = cat(b"SIG_GENERATOR_SEED_");
+    let generator_seed = cat(b"SIG_GENERATOR_SEED_");
+    let generator_dst = cat(b"SIG_GENERATOR_DST_");
+    let binding = [seed_dst.as_slice()];
+    let mut vbuf = [0u8; 40];
+    let mut ex = ExpandMsgXmd::<Sha256>::expand_message(&[&generator_seed], &binding, 32).expect("expand");
+    ex.fill_bytes(&mut vbuf[..32]);
+    let mut same = ys.len() == n.max(1);
+    let mut inner = [0u8; 32];
+    for (i, y) in ys.iter().enumerate() {
+        vbuf[32..].copy_from_slice(&(i as u64).to_be_bytes());
+        let mut iex = ExpandMsgXmd::<Sha256>::expand_message(&[&vbuf], &binding, 32).expect("expand");
+        iex.fill_bytes(&mut inner);
+        let g = G1Projective::hash::<ExpandMsgXmd<Sha256>>(&inner, &generator_dst);
+        if g != *y {
+            same = false;
+        }
+    }
+    let distinct = (0..ys.len()).all(|i| (0..ys.len()).all(|j| i == j || ys[i] != ys[j])) && ys.iter().all(|q| !bool::from(q.is_identity()) && *q != G1Projective::GENERATOR);
+    let _ = Scalar::ONE;
+    json!({"r":"ok","same":same,"distinct":distinct,"n":ys.len()})
+}
+
 pub fn run(op: &str, v: &Value) -> Value {
+    if op == "d_bbs_gens" {
+        return bbs_gens_pin(v);
+    }
     let ps = v["suite"].as_str() == Some("ps");
     match (op, ps) {
         ("f_pok", true) => pok_case::<PsScheme>(v, true),
